@@ -13,6 +13,7 @@ import ScyllaVerif.Proofs.CodecDyn
 import ScyllaVerif.Proofs.CodecSpec
 import ScyllaVerif.Proofs.C01TypedRT
 import ScyllaVerif.Model.C01ExternalConv
+import ScyllaVerif.Proofs.C01VarintNorm
 
 namespace ScyllaVerif.Props.C01
 open ScyllaVerif.Vint ScyllaVerif.Cql ScyllaVerif.Codec
@@ -745,5 +746,113 @@ example :
     decBytes allUtf8 (.native .text) [0, 0, 0, 1, 0x61] = .ok (.text [0x61]) ∧
     encImpl (.native .text) (.ascii [0x61]) true [] = .ok [0, 0, 0, 1, 0x61] := by
   refine ⟨by rfl, by rfl, by rfl, by rfl⟩
+
+/-! ### "an equal value" for the varint carriers: the normalised `PartialEq` / `Hash` (`Model/C01VarintNorm.lean`)
+
+`CqlVarint` / `CqlVarintBorrowed` (and through them `CqlDecimal`, `CqlDecimalBorrowed`, `CqlValue::Varint|Decimal`)
+compare and hash the output of `as_normalized_slice` (`value.rs:439-473`).  `toInt` is the integer a byte string
+stands for (two's complement, big-endian — the specification side, independent of the normalisation). -/
+
+section VarintNorm
+open ScyllaVerif.VarintNorm
+
+/-- Normalisation never changes the integer: for every byte string. -/
+theorem varint_normalize_value (d : List UInt8) : toInt (normalize d) = toInt d :=
+  VarintNorm.toInt_normalize d
+
+/-- **`==` is sound**: two `CqlVarint`s that compare equal are the same integer — for all byte strings (so 128 =
+`[00, 80]` never equals -128 = `[80]`: the zero that carries the sign is kept). -/
+theorem varint_eq_sound (a b : List UInt8) (h : varintEq a b = true) : toInt a = toInt b :=
+  VarintNorm.varintEq_sound a b h
+
+/-- `CqlDecimal` equality is sound: same unscaled integer and same scale. -/
+theorem decimal_eq_sound (a b : List UInt8) (sa sb : Int) (h : decimalEq a sa b sb = true) :
+    toInt a = toInt b ∧ sa = sb := by
+  simp only [decimalEq, Bool.and_eq_true, beq_iff_eq] at h
+  exact ⟨VarintNorm.varintEq_sound a b h.1, h.2⟩
+
+/-- `==` is an equivalence and `Hash` is consistent with it (equal values feed the hasher the same bytes). -/
+theorem varint_eq_equiv (a b c : List UInt8) :
+    varintEq a a = true ∧ (varintEq a b = varintEq b a) ∧
+    (varintEq a b = true → varintEq b c = true → varintEq a c = true) ∧
+    (varintEq a b = true → hashInput a = hashInput b) := by
+  refine ⟨by simp [varintEq], ?_, ?_, ?_⟩
+  · simp only [varintEq]; exact Bool.beq_comm
+  · simp only [varintEq, beq_iff_eq]; intro h1 h2; rw [h1, h2]
+  · simp only [varintEq, beq_iff_eq, hashInput]; exact id
+
+/-- A decoded value equals the value bound: `==` is reflexive on every byte string, normalised or not
+(the decoder hands back the bytes as written: `Codec` round trip). -/
+theorem varint_roundtrip_equal (d : List UInt8) : varintEq d d = true := by simp [varintEq]
+
+/-- Zero padding of a non-negative number is invisible to `==` (the documented normalisation). -/
+theorem varint_eq_zero_pad (d : List UInt8) (h : d = [] ∨ ∃ c r, d = c :: r ∧ c.toNat < 128) :
+    varintEq (0 :: d) d = true := by
+  rcases h with h | ⟨c, r, h, hc⟩
+  · subst h; simp [varintEq, normalize, dropZeros]
+  · subst h
+    by_cases hc0 : c.toNat = 0
+    · have h0 : (0 : UInt8).toNat = 0 := rfl
+      have hl := VarintNorm.dropZeros_length_le r
+      simp only [varintEq, normalize, dropZeros, h0, hc0, if_true, List.isEmpty_cons, Bool.false_eq_true, if_false,
+        beq_iff_eq]
+      cases hz : dropZeros r with
+      | nil => rfl
+      | cons b rest =>
+        rw [hz] at hl
+        simp only [List.length_cons] at hl ⊢
+        have h1 : r.length + 1 + 1 - (rest.length + 1) > 0 := by omega
+        have h2 : r.length + 1 - (rest.length + 1) > 0 := by omega
+        simp only [h1, h2, if_true]
+    · have h0 : (0 : UInt8).toNat = 0 := rfl
+      have hn : ¬ c.toNat > 0x7f := by omega
+      simp [varintEq, normalize, dropZeros, h0, hc0, hn]
+
+/-- What the normalisation does NOT identify (the code as it is): redundant leading 0xff bytes of a negative
+number.  `[ff, ff]` and `[ff]` are both -1 and are unequal `CqlVarint`s — so `==` is complete (same integer ⇒
+equal) only on byte strings without such padding; the harness oracle checks that half on every `vnorm` case. -/
+theorem varint_eq_ff_padding_counterexample :
+    toInt [0xff, 0xff] = toInt [0xff] ∧ varintEq [0xff, 0xff] [0xff] = false := by decide
+
+/-- **`HashSet<CqlVarint>` loses no integer**: whatever the elements (padded, aliased, repeated), every element
+bound is represented in the collected set by an element that is the same integer. -/
+theorem varint_set_no_integer_lost (xs : List (List UInt8)) (x : List UInt8) (hx : x ∈ xs) :
+    ∃ y ∈ collectSet xs, toInt y = toInt x := by
+  obtain ⟨y, hy, he⟩ := VarintNorm.foldl_insertSet_cover xs [] x hx
+  exact ⟨y, hy, by rw [← VarintNorm.toInt_normalize y, he, VarintNorm.toInt_normalize]⟩
+
+/-- **decode(encode v) == v for a hash set / map keyed by varints**: elements that are pairwise different
+integers (e.g. 128 and -128, 255 and -1, 40000 and -25536) all survive `collect()`, in order. -/
+theorem varint_set_distinct_kept (xs : List (List UInt8)) (h : xs.Pairwise (fun a b => toInt a ≠ toInt b)) :
+    collectSet xs = xs := by
+  have := VarintNorm.foldl_insertSet_distinct xs [] (by
+    simp only [List.nil_append]
+    refine h.imp ?_
+    intro a b hab
+    cases he : varintEq a b with
+    | false => rfl
+    | true => exact absurd (VarintNorm.varintEq_sound a b he) hab)
+  simpa [ScyllaVerif.VarintNorm.collectSet] using this
+
+theorem varint_map_distinct_kept {α : Type} (kvs : List (List UInt8 × α))
+    (h : kvs.Pairwise (fun a b => toInt a.1 ≠ toInt b.1)) : collectMap kvs = kvs := by
+  have := VarintNorm.foldl_insertMap_distinct kvs [] (by
+    simp only [List.nil_append]
+    refine h.imp ?_
+    intro a b hab
+    cases he : varintEq a.1 b.1 with
+    | false => rfl
+    | true => exact absurd (VarintNorm.varintEq_sound a.1 b.1 he) hab)
+  simpa [ScyllaVerif.VarintNorm.collectMap] using this
+
+/-- Non-vacuity: the sign-alias pair 128 = `[00, 80]` / -128 = `[80]`, a padded 128, and the collections. -/
+example :
+    toInt [0x00, 0x80] = 128 ∧ toInt [0x80] = -128 ∧ varintEq [0x00, 0x80] [0x80] = false ∧
+    varintEq [0x00, 0x00, 0x80] [0x00, 0x80] = true ∧ normalize [0x00, 0x00, 0x80] = [0x00, 0x80] ∧
+    collectSet [[0x00, 0x80], [0x80], [0x00, 0x00, 0x80]] = [[0x00, 0x80], [0x80]] ∧
+    collectMap [([0x00, 0x80], 1), ([0x80], 2), ([0x00, 0x00, 0x80], 3)] = [([0x00, 0x80], 3), ([0x80], 2)] ∧
+    decimalEq [0x00, 0x80] 1 [0x80] 1 = false := by decide
+
+end VarintNorm
 
 end ScyllaVerif.Props.C01
